@@ -27,6 +27,7 @@ Rewrites applied by the extractor are a closed list (reported per unit):
   R3 body of an item marked `external`
   R6 argument-position `impl Trait` -> named type parameter
   R7 return value naming `-> T` -> `-> (r: T)` (Verus syntax for naming the result; no semantic change)
+  R13 a parameter spelled `_name` in the source and `name` in the contract is renamed back to `name` (alpha-renaming of a binder)
   R10 `for PAT in EXPR { .. }` -> `let mut it = IntoIterator::into_iter(EXPR); loop { let PAT = match it.next() { Some(v) => v, None => break }; .. }`
       (the language reference's definition of `for`; used only where the body has `continue`, which Verus rejects in for-loops)
   R9 `const` -> `exec const` with an `ensures` (Verus mode annotation) when the template gives a spec for a const
@@ -337,13 +338,17 @@ def opaque_closures(fn_text, unit_text):
             continue      # `|x| -> (r: T) requires .. ensures .. { .. }`: under contract
         callee = _callee_of(t, m.start())
         if callee:
-            dm = re.search(r'\bfn\s+%s\s*[<(]' % re.escape(callee), unit_text)
-            if dm:
-                body = unit_text[dm.start():dm.start() + 1500]
-                end = body.find('unimplemented!()')
-                contract = body[:end] if end >= 0 else body[:600]
-                if '.ensures(' not in contract and '.requires(' not in contract:
-                    continue      # a shim of the unit that says nothing about what the closure returns
+            defs = list(re.finditer(r'\bfn\s+%s\s*[<(]' % re.escape(callee), unit_text))
+            if defs:
+                silent = True     # every shim of that name says nothing about what the closure returns
+                for dm in defs:
+                    body = unit_text[dm.start():dm.start() + 1500]
+                    end = body.find('unimplemented!()')
+                    contract = body[:end] if end >= 0 else body[:600]
+                    if '.ensures(' in contract or '.requires(' in contract:
+                        silent = False
+                if silent:
+                    continue
         n += 1
     return n
 
@@ -634,6 +639,24 @@ def extract(node, variant, report):
         cur = b
     out.append(text[cur:it.end])
     res = ''.join(out)
+    # R13: a parameter that the source spells with a leading underscore (`_in_memory`: "unused", a lint matter) while the contract names it
+    # without (`in_memory`) is renamed back throughout the function -- alpha-renaming of a binder, no semantic change.  Without it a contract
+    # about a parameter that a change stops using could not even be stated (the unit would not compile: undecided).
+    if it.kind == 'fn' and node['spec']:
+        spec_src = '\n'.join(_pick(h, variant) for h in node['spec'])
+        m = re.search(r'\bfn\s+\w+\s*(?:<[^{;]*?>)?\s*\(', res)
+        if m:
+            depth, j = 1, m.end()
+            while j < len(res) and depth:
+                depth += {'(': 1, ')': -1}.get(res[j], 0)
+                j += 1
+            params = res[m.end():j - 1]
+            names = re.findall(r'(?:^|,)\s*(?:mut\s+)?(\w+)\s*:', params)
+            for pn in names:
+                if pn.startswith('_') and len(pn) > 1 and pn[1:] not in names and re.search(r'\b%s\b' % re.escape(pn[1:]), spec_src) \
+                        and not re.search(r'\b%s\b' % re.escape(pn), spec_src) and not re.search(r'(?<![\w.])%s\b' % re.escape(pn[1:]), res.replace(spec_src, '')):
+                    res = re.sub(r'\b%s\b' % re.escape(pn), pn[1:], res)
+                    rule('R13')
     report['extracts'].append(dict(
         item=' >> '.join(node['path']), file=node['file'], line=src.line_of(it.head), end_line=src.line_of(it.end),
         obligs=node['obligs'], rules=rules, external=node['external'],
